@@ -60,6 +60,11 @@ def hostOp (w : World) (h : Nat) (t : List String) : World × String :=
     -- the harness has `try_write` only on an unsplit stream; on a split-off write half it polls `poll_write`
     let split := match w.getObj h (slotOf s) with | some (.stream none (some _)) => true | _ => false
     w.opTcpWrite h (slotOf s) (parseHex p) split
+  | ["tcp_split", s] =>
+    -- into_split / reunite do nothing to the connection; they need both halves in the slot
+    (w, match w.getObj h (slotOf s) with | some (.stream (some _) (some _)) => "ok" | _ => "err badslot")
+  | ["tcp_reunite", s] =>
+    (w, match w.getObj h (slotOf s) with | some (.stream (some _) (some _)) => "ok" | _ => "err badslot")
   | ["tcp_pwrite", s, p] => w.opTcpWrite h (slotOf s) (parseHex p) true
   | ["tcp_shutdown", s] => w.opTcpShutdown h (slotOf s)
   | ["tcp_read", s, n] => w.opTcpRead h (slotOf s) (n.toNat?.getD 0) false
